@@ -86,7 +86,7 @@ def insn_token(eng, mnemonic="insn", operands=()):
 
 
 # ---------------------------------------------------------------- callee contract: metacommand_impl.get_as_int (Appendix A.1)
-def contract_get_as_int(eng, state, what, token, arg_token, bitness, unsigned, default=None):
+def contract_get_as_int(eng, state, what, token, arg_token, bitness, unsigned, default=None, cycle_is_reported=True):
     """Assumed at call sites; proved against the real body in contracts/c06.py unit get_as_int[*]."""
     eng.assumptions.add("callee contract assumed: metacommand_impl.get_as_int (A.1) - discharged by C06 unit get_as_int")
     v = eng.call(eng.getattr(arg_token, "resolve"), [state], {})
